@@ -65,4 +65,30 @@ func debugStore.Close
   modifies everything
   ghost before call KVStore.Close: assert arg0 == s.underlying
 
+
+-- views: the wrapper's view of a realm wraps the underlying store's view of THAT (absolute) realm; an extended realm is the
+-- wrapper's own realm followed by the extension - computed here, so the underlying store is asked for an absolute realm
+-- in both cases (asking it to extend would prepend the parent realm twice)
+func debugStore.WithRealm
+  requires s != nil && s.underlying != nil
+  modifies everything
+  ghost before call KVStore.WithRealm: assert arg0 == s.underlying && arg1 == realm
+  ghost local inner Int
+  ghost after call KVStore.WithRealm: inner = r0
+  ghost at return: assert r1 == nil ==> typeof(r0) == typeid(*debugStore) && unbox(*debugStore, r0) != nil && unbox(*debugStore, r0).underlying == inner
+assume-func github.com/iotaledger/hive.go/kvstore.KVStore.Realm(st) (r)
+  ensures true
+func debugStore.Realm
+  requires s != nil && s.underlying != nil
+  modifies nothing
+  ghost before call KVStore.Realm: assert arg0 == s.underlying
+func debugStore.WithExtendedRealm
+  requires s != nil && s.underlying != nil
+  modifies everything
+  ghost local own Str         -- the wrapper's own realm (ghost)
+  ghost after call debugStore.Realm: own = str(result)
+  ghost before call ConcatBytes: assert len(arg0) == 2 && str(arg0[0]) == own && arg0[1] == realm
+  ghost local ext Slice
+  ghost after call ConcatBytes: ext = result
+  ghost before call debugStore.WithRealm: assert arg0 == s && arg1 == ext
 @*/
